@@ -42,13 +42,16 @@ PROPS["C01"] = dict(
 PROPS["C02"] = dict(PROPS["C01"],
     rule="same seeded histories as C01; after sampled steps every one of the ten indexed lookups and Triples is called with fixed components drawn from "
          "stored and non-stored universe triples and from absent vocabulary values, and compared as a multiset of projected structural keys with a filter "
-         "over the reference set (predicate equality = identifier, kind, instant). Non-trivial: at least one non-empty batch applied before a lookup round",
+         "over the reference set (predicate equality = identifier, kind, instant). 15% of the histories run inside a synctest bubble with every consumer of "
+         "lookup results pausing 0.3 / 1.5 / 6 simulated seconds before its first receives (how fast a caller drains is not part of the answer). "
+         "Non-trivial: at least one non-empty batch applied before a lookup round",
 )
 PROPS["C09"] = dict(PROPS["C01"],
     rule="same seeded histories as C01; after sampled steps every lookup is called with generated options (window bounds on/next to stored anchors incl. "
          "lower>upper and one-sided, filter function x field, LatestAnchor, page size x offset) and compared with the reference definition "
          "window -> filter -> page; pages are compared with blocks of the implementation's own unpaged sequence and must concatenate to it; the options "
-         "value must be unchanged after the call. Non-trivial: at least one non-empty batch applied before a lookup round",
+         "value must be unchanged after the call. 15% of the histories run inside a synctest bubble with slow consumers (0.3 / 1.5 / 6 simulated seconds "
+         "before the first receives). Non-trivial: at least one non-empty batch applied before a lookup round",
 )
 
 PROPS["C07"] = dict(
@@ -151,9 +154,10 @@ _QUERY_COMMON = dict(
     instrument=ENGINE_FILES,
     budget=dict(quick=40, thorough=900),
     components_real=ENGINE_REAL,
-    components_stub=["simulated storage driver, fault-free (gate, pacing, permuted emission of unpaged lookups)", "seeded scheduler in a synctest bubble",
+    components_stub=["simulated storage driver (gate, pacing, permuted emission of unpaged lookups; never failing in these checks - in 10% of the cases one of its calls is slow by simulated seconds, in 10% the caller's context is cancelled during one of its calls)", "seeded scheduler in a synctest bubble",
                      "reference evaluator (x/harness/ref.go) as oracle"],
     assumptions=["the input dimension (graph contents x query) is seeded generation, not enumeration; the simulator owns completion order and pace of driver calls, emission order, fan-out width (GOMAXPROCS knob), channel sizes and map iteration order",
+                 "a statement whose caller cancelled may fail: it is then executed again without the cancellation and that run is judged; a cancelled statement that reports success is judged like any other",
                  "queries whose answer the property statement leaves open are executed but not judged (a binding introduced by an OPTIONAL clause used again, bounds taken from bindings, sum over mixed kinds)"],
 )
 PROPS["C03"] = dict(_QUERY_COMMON,
@@ -310,11 +314,11 @@ MANIFEST_TEXT["C01"] = dict(
 MANIFEST_TEXT["C02"] = dict(
     text="seeded exploration: after sampled steps of generated histories all lookups are compared with a filter over the reference set",
     note=_store_note,
-    technique="deterministic simulation (single-client configuration): seeded history search, lookup results refined against a scan of the reference model")
+    technique="deterministic simulation (single-client configuration): seeded history search, lookup results refined against a scan of the reference model; slow consumers on the synctest fake clock")
 MANIFEST_TEXT["C09"] = dict(
     text="seeded exploration: lookups with generated options compared with the documented definition (window, filter function, page) over the reference set; paging judged against the implementation's own unpaged order",
     note=_store_note,
-    technique="deterministic simulation (single-client configuration): seeded history and configuration search against a reference definition of the lookup options")
+    technique="deterministic simulation (single-client configuration): seeded history and configuration search against a reference definition of the lookup options; slow consumers on the synctest fake clock")
 MANIFEST_TEXT["C07"] = dict(
     text="seeded search over interleavings of concurrent clients at statement granularity with linearizability checking of every recorded history and invariants evaluated between scheduler steps; many short diverse runs, each exactly replayable from its tape",
     note="trusted base: x/sim scheduler + testing/synctest quiescence, the go/ast instrumenter (its pass-through self-test runs the repository's own tests on the instrumented copy), porcupine v1.3.0, the set model; data races inside a single statement are not reachable",
